@@ -21,7 +21,8 @@ class Gen:
         self.typed = typed
         self.k = 0
         self.labels = set()
-        self.pre = []          # extra set-up lines (declarations for typed variants)
+        self.facts = []        # structural facts used by the classifier: ('in', n0, n1, m0, m1), ('starunpack', k0, k1)
+        self.no_lambda = False
 
     # ------------------------------------------------------------------ helpers
     def key(self):
@@ -99,8 +100,12 @@ class Gen:
             return '(%s)' % ' '.join(parts)
         if r < .93:
             self.lab('in-literal')
-            return '(%s %s (%s, %s, %s))' % (self.e_int(d - 1), self.pick(['in', 'not in']), self.e_int(0), self.e_int(0),
-                                             self.rng.randint(0, 5))
+            k0 = self.k
+            needle = self.e_int(d - 1)
+            k1 = self.k
+            m1, m2 = self.e_int(0), self.e_int(0)
+            self.facts.append(('in', k0 + 1, k1, k1 + 1, self.k))
+            return '(%s %s (%s, %s, %s))' % (needle, self.pick(['in', 'not in']), m1, m2, self.rng.randint(0, 5))
         self.lab('builtin-call')
         return 'isinstance(%s, %s)' % (self.e_int(d - 1), self.v('int'))
 
@@ -115,8 +120,9 @@ class Gen:
         items = [self.e_any(d - 1) for _ in range(self.rng.randint(1, 3))]
         return '(%s,)' % ', '.join(items)
 
-    def e_map(self, d):
-        names = self.rng.sample(['ka', 'kb', 'kc', 'kd'], self.rng.randint(0, 2))
+    def e_map(self, d, pool=None):
+        pool = ['ka', 'kb', 'kc', 'kd'] if pool is None else pool
+        names = [pool.pop(self.rng.randrange(len(pool))) for _ in range(min(len(pool), self.rng.randint(0, 2)))]
         if d <= 0 or self.rng.random() < .6:
             return 'E.m(%d, %r)' % (self.key(), tuple(names))
         self.lab('display')
@@ -134,10 +140,11 @@ class Gen:
         kws = []
         names = ['p', 'q', 's', 't']
         rng.shuffle(names)
+        mpool = ['ka', 'kb', 'kc', 'kd']        # ** mappings of one call never share a key (fault precedence is out of scope)
         for _ in range(rng.choice([0, 0, 1, 2])):
             if allow_unpack and rng.random() < .25:
                 self.lab('call-dstar')
-                kws.append('**' + self.e_map(d - 1))
+                kws.append('**' + self.e_map(d - 1, mpool))
             else:
                 self.lab('call-kw')
                 kws.append('%s=%s' % (names.pop(), self.e_any(d - 1)))
@@ -279,6 +286,9 @@ class Gen:
             if k < .85:
                 return '%s.setdefault(%s, %s)' % (self.v('{}'), self.e_int(0), self.e_any(d - 1))
             return '%s.replace(%s, %s, %s)' % (self.v("'abcabc'"), self.v("'b'"), self.v("'X'"), self.e_int(0))
+        if self.no_lambda:
+            # a lambda with defaults inside an augmented-assignment target crashes the compiler (C43-type defect)
+            return self.v('3')
         self.lab('lambda-defaults')
         return '(lambda x=%s, *, y=%s: (x, y))(%s)' % (self.e_any(d - 1), self.e_any(d - 1),
                                                        self.pick(['', self.e_any(d - 1), 'y=' + self.e_any(d - 1)]))
@@ -332,7 +342,10 @@ class Gen:
             k = rng.random()
             if k < .2:
                 return [ind + 't0 = %s' % self.v('5'), ind + 't0 %s %s' % (self.pick(AUG[:3]), self.e_int(d - 1))]
-            return [ind + '%s %s %s' % (self.target(d, allow_name=False), self.pick(AUG), self.e_any(d - 1))]
+            self.no_lambda = True
+            tgt = self.target(d, allow_name=False)
+            self.no_lambda = False
+            return [ind + '%s %s %s' % (tgt, self.pick(AUG), self.e_any(d - 1))]
         if r < .58:
             self.lab('stmt-parallel-assign')
             n = rng.randint(2, 3)
@@ -358,12 +371,15 @@ class Gen:
             star = rng.random() < .4
             if star:
                 self.lab('unpack-starred')
+            k0 = self.k
             ts = self.target_list(d, n, star=star)
             nvals = n if rng.random() < .8 else n + rng.choice([-1, 1])
             k = rng.random()
             if k < .5:
                 src = 'E.seq(%d, %d)' % (self.key(), nvals)
             elif k < .7:
+                # a display of the wrong length is rejected at compile time by the compiler (deliberately)
+                nvals = n if not star else max(nvals, n - 1)
                 src = '[%s]' % ', '.join(self.e_any(d - 1) for _ in range(nvals))
             elif k < .85:
                 src = self.v('(%s,)' % ', '.join(str(i) for i in range(nvals)))
@@ -372,6 +388,8 @@ class Gen:
             lhs = ', '.join(ts)
             if rng.random() < .2:
                 lhs = '[%s]' % lhs
+            if star:
+                self.facts.append(('starunpack', k0 + 1, self.k))
             return [ind + '%s = %s' % (lhs, src)]
         if r < .71:
             self.lab('stmt-del')
@@ -459,6 +477,7 @@ class Gen:
     def function(self, name):
         self.k = 0
         self.labels = set()
+        self.facts = []
         body = []
         nst = self.rng.choice([1, 1, 2, 3])
         for _ in range(nst):
@@ -470,7 +489,7 @@ class Gen:
         if self.typed:
             head += ['    cdef int ci', '    cdef list cl', '    cdef dict cd', '    cdef str cs', '    cdef double cx']
         head += ['    E = Env(log)', '    r = t1 = t2 = None', '    w0 = w1 = 0', "    a = E.o('a')", "    b = E.o('b')"]
-        return '\n'.join(head + body + ['    return r']) + '\n', set(self.labels)
+        return '\n'.join(head + body + ['    return r']) + '\n', set(self.labels), list(self.facts)
 
 
 PRELUDE = '''# cython: language_level=3
